@@ -213,7 +213,8 @@ static Mat perturb(Rng &rng, const Mat &A, int how) {
     Mat B = A;
     if (how == 0) { Q s = Q::frac(1, 1L << rng.range(0, 3)) * Q(1L << rng.range(0, 3)); for (auto &v : B.val) v = v * s; }
     else if (how == 1) { for (long i = 0; i < B.n; ++i) for (auto j = B.ptr[i]; j < B.ptr[i+1]; ++j) if (B.col[j] == i) B.val[j] += Q::frac(rng.range(0, 5), 2); }
-    else { Rng r2(rng.next()); Mat C = gen_spd(r2, A.n, 0); if (C.n == A.n) B = C; }
+    else if (how == 2) { Rng r2(rng.next()); Mat C = gen_spd(r2, A.n, 0); if (C.n == A.n) B = C; }
+    else { auto rows = to_rows(B); for (long i = 0; i < B.n; ++i) if (rng.coin(1, 3)) { rows[i].clear(); rows[i].push_back({i, Q::frac(rng.range(2, 7), 2)}); } B = from_rows(B.n, B.n, rows); }
     return B;
 }
 
@@ -223,9 +224,13 @@ static std::string make_line(Rng &rng, const Opts &o, bool rebuild) {
     int fam = (int)rng.range(0, 5);
     if (fam <= 3) h.A = gen_spd(rng, n, fam); else if (fam == 4) h.A = gen_convdiff(rng, n);
     else { std::vector<std::vector<std::pair<long,Q>>> rows(n); for (long i = 0; i < n; ++i) rows[i].push_back({i, Q(rng.range(1, 5))}); h.A = from_rows(n, n, rows); }   // diagonal matrix: coarsens to nothing
+    // Dirichlet-type rows: a single diagonal entry d != 1 (left operand rows with ONE entry exercise the single-row
+    // fast path of the row-merge SpGEMM, which multiplies the whole right row by that coefficient)
+    bool dirichlet = rng.coin(1, 4);
+    if (dirichlet) { auto rows = to_rows(h.A); for (long i = 0; i < h.A.n; ++i) if (rng.coin(1, 4)) { rows[i].clear(); rows[i].push_back({i, Q::frac(rng.range(2, 7), 2)}); } h.A = from_rows(h.A.n, h.A.n, rows); }
     if (rng.coin(1, 4)) h.A = unsort(rng, h.A, false);
     static const std::vector<long> ces = { 0, 1, 2, 3, 5, 8, 100 }; static const std::vector<long> mls = { 1, 2, 3, 10, 10 };
-    h.ce = rng.pick(ces); h.dc = rng.coin(3, 4); h.ml = rng.pick(mls); h.ar = rebuild ? 1 : rng.coin(); h.nt = rng.coin(1, 4) ? 17 : 1;
+    h.ce = rng.pick(ces); h.dc = rng.coin(3, 4); h.ml = rng.pick(mls); h.ar = rebuild ? 1 : rng.coin(); h.nt = (dirichlet ? rng.coin(3, 4) : rng.coin(1, 4)) ? 17 : 1;
     h.s = h.kind == 0 ? Q(1 / over_interp_of_kind0) : Q(1);
     // record the transfer operators by running the real coarsening once
     Result dummy = run(h, {}, false);
@@ -233,7 +238,7 @@ static std::string make_line(Rng &rng, const Opts &o, bool rebuild) {
     for (auto &pr : g_rec) { l << *pr.first; l << *pr.second; }
     if (rebuild) {
         long K = rng.range(1, 3); l << K;
-        for (long k = 0; k < K; ++k) { if (k == 2) l << h.A; else l << perturb(rng, h.A, (int)rng.range(0, 2)); }
+        for (long k = 0; k < K; ++k) { if (k == 2) l << h.A; else l << perturb(rng, h.A, (int)rng.range(0, 3)); }
     }
     return l.get();
 }
